@@ -297,7 +297,7 @@ class DegreeInterp:
                 for k in e.keywords:
                     if k.arg:
                         binding[k.arg] = self.eval(k.value, env)
-                sub = DegreeInterp(ext2, weight_params=(), summaries=self.summaries, internal=self.internal, depth=self.depth + 1, extra_degrees=self.extra)
+                sub = type(self)(ext2, weight_params=(), summaries=self.summaries, internal=self.internal, depth=self.depth + 1, extra_degrees=self.extra)
                 rets = sub.run(fn, binding)
                 self.conflicts += sub.conflicts
                 self.hazards += sub.hazards
